@@ -94,7 +94,7 @@ func check(tt *testing.T, c Case) (pbt.Info, error) {
 	h := prog.NewHandler(c.Kind, hp, log, cfg.HandlerOptions()...)
 	var rec *memnet.Recorded
 	berr := pbt.Bubble(tt, func() error {
-		rec = memnet.Serve(h, c.Method, prog.Procedure(c.Kind), hdr(c.Header), bytes.NewReader(c.Body), memnet.ServeOpts{ProtoMajor: c.ProtoMajor})
+		rec = memnet.Serve(h, c.Method, prog.Procedure(c.Kind), hdr(c.Header), bytes.NewReader(c.Body), memnet.ServeOpts{ProtoMajor: c.ProtoMajor, HaveContentLength: len(c.Body)%2 == 1, ContentLength: int64(len(c.Body))})
 		return nil
 	})
 	where := fmt.Sprintf("%s handler, fault %q, %s HTTP/%d headers %v, %d body bytes %q", c.Kind, c.Fault, c.Method, c.ProtoMajor, c.Header, len(c.Body), trunc(c.Body, 60))
